@@ -116,7 +116,7 @@ class Report:
 
             known = known_functions()
             known_cls = {q.rsplit(".", 2)[0] + "." + q.rsplit(".", 2)[1] for q in known if q.count(".") >= 2}
-            unknown = {c.name: c for c in prog.classes.values() if f"{c.mod.name}.{c.name}" not in known_cls and not any(b.split("[")[0].split(".")[-1] in ("Exception", "QueryException", "BaseException", "IntEnum", "NamedTuple") or "Exception" in b for b in c.base_names)}
+            unknown = {c.name: c for c in prog.classes.values() if f"{c.mod.name}.{c.name}" not in known_cls and not any(b.split("[")[0].split(".")[-1] in ("Exception", "QueryException", "BaseException", "IntEnum") or "Exception" in b for b in c.base_names)}
             # classes with no methods at rule-writing time (models etc.) are known by name through known constants
             from .normalize import known_constants
 
@@ -145,6 +145,35 @@ class Report:
                         elif isinstance(n_, _ast.Attribute) and n_.attr in members:
                             res = f"{function} goes through `.{n_.attr}` of a class introduced after the rules were written ({', '.join(sorted(unknown))[:80]})"
                         if res:
+                            break
+                    if res:
+                        break
+            if res is None:
+                # a dependency edge the rules were not written against: the function calls something of the packages that its
+                # module imports only since (and that could not be written out in place)
+                import ast as _ast
+                from .normalize import known_imports
+                from .model import PACKAGES
+
+                ki = known_imports()
+                for fi in prog.by_short.get(function, []):
+                    new_names = {}
+                    for st in fi.mod.tree.body:
+                        if isinstance(st, _ast.ImportFrom) and (st.level >= 1 or (st.module or "").split(".")[0] in PACKAGES):
+                            for a in st.names:
+                                if f"{fi.mod.name}:{a.name}" not in ki and a.name != "*":
+                                    new_names[a.asname or a.name] = (st.module or ".", a.name)
+                    if not new_names:
+                        continue
+                    for n_ in _ast.walk(fi.node):
+                        if isinstance(n_, _ast.Call) and isinstance(n_.func, _ast.Name) and n_.func.id in new_names:
+                            src, nm = new_names[n_.func.id]
+                            # only a function that already existed when the rules were written (its behaviour is pinned by the
+                            # rules of its home module): a NEW function reached through a new import is unverified code, and a
+                            # finding about its caller stands
+                            if not any(q.endswith("." + nm) and (src == "." or q.rsplit(".", 1)[0].endswith(src.lstrip("."))) for q in known):
+                                continue
+                            res = f"{function} calls `{nm}`, which its module imports from `{src}` only since the rules were written (a dependency on code of another module that the rules do not see through)"
                             break
                     if res:
                         break
